@@ -852,6 +852,86 @@ func c8CloneOwnership(c *Ctx, rule string) {
 // parameter - itself or re-sliced - is never stored into memory (a struct field, a slice element, a captured
 // variable). Passing it on to an inner core or encoder, ranging over it, copying out of it and appending its elements
 // to another slice are all fine.
+// cellOfTransientClosures: a is a variable captured by function literals that only read it and that are themselves
+// only called - where they are made, or by the helper of the module they are handed to, which does nothing with its
+// parameter but call it. What such a variable holds is gone when the enclosing call returns.
+func cellOfTransientClosures(a *ssa.Alloc) bool {
+	if a.Referrers() == nil {
+		return false
+	}
+	onlyCalled := func(v ssa.Value) bool {
+		if v.Referrers() == nil {
+			return false
+		}
+		for _, r := range *v.Referrers() {
+			switch x := r.(type) {
+			case *ssa.DebugRef:
+			case ssa.CallInstruction:
+				if _, isGo := x.(*ssa.Go); isGo || x.Common().Value != v {
+					return false
+				}
+				for _, arg := range x.Common().Args {
+					if arg == v {
+						return false
+					}
+				}
+			default:
+				return false
+			}
+		}
+		return true
+	}
+	transient := func(mk *ssa.MakeClosure) bool {
+		if mk.Referrers() == nil {
+			return false
+		}
+		for _, r := range *mk.Referrers() {
+			switch x := r.(type) {
+			case *ssa.DebugRef:
+			case ssa.CallInstruction:
+				if _, isGo := x.(*ssa.Go); isGo {
+					return false
+				}
+				if x.Common().Value == ssa.Value(mk) {
+					continue
+				}
+				h := x.Common().StaticCallee()
+				if h == nil || !curProgRoot(h) || len(h.Blocks) == 0 || x.Common().IsInvoke() {
+					return false
+				}
+				for i, arg := range x.Common().Args {
+					if arg == ssa.Value(mk) && (i >= len(h.Params) || !onlyCalled(h.Params[i])) {
+						return false
+					}
+				}
+			default:
+				return false
+			}
+		}
+		return true
+	}
+	for _, r := range *a.Referrers() {
+		switch x := r.(type) {
+		case *ssa.DebugRef:
+		case *ssa.Store:
+			if x.Addr != ssa.Value(a) {
+				return false
+			}
+		case *ssa.UnOp:
+			if x.Op != token.MUL {
+				return false
+			}
+		case *ssa.MakeClosure:
+			if !readOnlyCapture(x, a, 0) || !transient(x) {
+				return false
+			}
+		default:
+			return false
+		}
+	}
+	return true
+}
+
 func c8NoRetainedFields(c *Ctx, rule string) {
 	iface := c.coreIface()
 	if !c.Anchor(rule, "zapcore.Core", iface != nil) {
@@ -894,7 +974,7 @@ func c8NoRetainedFields(c *Ctx, rule string) {
 						return ""
 					}
 					// a plain local variable is no memory anybody else sees
-					if a, isA := sto.Addr.(*ssa.Alloc); isA && !allocEscapes(a) {
+					if a, isA := sto.Addr.(*ssa.Alloc); isA && (!allocEscapes(a) || cellOfTransientClosures(a)) {
 						return ""
 					}
 					bad = append(bad, st.Desc(sto.Addr)+" = "+st.Desc(sto.Val)+" at "+c.Pos(sto.Pos()))
